@@ -151,7 +151,7 @@ def display(arg, opts, ctx, out):
 
 def find_fmt(ty, trait):
     short = re.sub(r"<.*>$", "", base_type(ty)).split("::")[-1]
-    cands = [n for n, fn in core.FNS.items() if n.endswith("::fmt") and "<impl at" in n and re.match(r"_1: &(?:\w+::)*%s(?![\w<])" % re.escape(short), fn.ptext)]
+    cands = [n for n, fn in core.FNS.items() if n.endswith("::fmt") and "<impl at" in n and re.match(r"_1: &(?:\w+::)*%s(?![\w<])" % re.escape(short), re.sub(r"<'\w+>|'\w+ ", "", fn.ptext))]
     def body(n): return "\n".join(sum(core.FNS[n].blocks.values(), []))
     fwd = [n for n in cands if re.search(r"as (std::fmt::|core::fmt::)?Debug>::fmt\(", body(n))]          # Display written as a call of Debug
     derived = [n for n in cands if re.search(r"debug_(struct|tuple|list|map)", body(n))]
